@@ -152,6 +152,24 @@ theorem all_data_verified (q : Quirks) (c : Codec) (s : Bytes) :
     ∃ blocks, Delivered q c s blocks (readAll q c s).2 ∧ (readAll q c s).1 = (blocks.map (·.2)).flatten :=
   readAll_delivered q c s
 
+/-- The repaired reader reports the clean end of a block read only on EMPTY input: no header field,
+BSIZE value or body content of any byte string makes `readBlock` return `io.EOF` (on the unchanged
+tree two paths did: `unrepaired_clean_eof_inside_member`, `unrepaired_zero_need_is_clean_eof`). -/
+theorem clean_eof_only_on_empty_input (c : Codec) (s : Bytes) (h : readBlock .repaired c s = .error .eof) :
+    s = [] :=
+  readBlock_repaired_eof c s h
+
+/-- **The corruption clause, as far as it is provable.**  For EVERY byte string (so for every stream
+with any number of altered bytes): if the repaired reader ends cleanly, then the entire input, to its
+last byte, was consumed as back-to-back members, each framed by its own BSIZE and each passing the
+CRC-32/ISIZE verification of what was inflated from it, and the data returned is exactly theirs.
+Hence an altered stream that does not fail consists solely of members whose checksums match their
+decoded content; whether such an altered member can decode to *different* content is CRC-32's
+business, not the reader's. -/
+theorem clean_end_only_after_whole_input_verified (c : Codec) (s : Bytes)
+    (h : (readAll .repaired c s).2 = .eof) : FullyFramed c s (readAll .repaired c s).1 :=
+  clean_end_fully_framed c s h
+
 /-- The recursion of `readAll` always makes progress (its guard branch is dead). -/
 theorem readAll_unfolds (q : Quirks) (c : Codec) (s : Bytes) :
     readAll q c s =
@@ -209,6 +227,13 @@ theorem bam_prefix_reads_prefix (c : Codec) (sem : BamSem) (ms : List Member) (h
     congr 1
     by_cases hkb : k = offset ms j <;> by_cases hrb : (data (ms.take j)).length - h.length = roff rs i <;>
       simp [hkb, hrb, shortErr]
+
+/-- Every binary BAM header laid out as the SAM specification says (magic, l_text, text the text parser
+accepts, n_ref, n_ref entries of l_name / NUL-terminated name / l_ref) satisfies the header hypothesis
+`HdrOk` of `bam_prefix_reads_prefix`: it is accepted whatever follows, and every proper prefix of it
+is rejected. -/
+theorem bam_header_wellformed_is_hdrOk (sem : BamSem) (h : Hdr) (hw : h.WellFormed sem) : HdrOk sem h.bytes :=
+  hdrOk_of_wellFormed sem h hw
 
 /-! ## The three defects of the unchanged tree, on the same model (`Quirks.unrepaired`) -/
 
@@ -324,5 +349,14 @@ example : HdrOk ⟨fun _ => true, fun _ => true⟩ (bamMagic ++ [3, 0, 0, 0] ++ 
         ∨ n = 12 ∨ n = 13 ∨ n = 14 := by omega
     rcases this with rfl | rfl | rfl | rfl | rfl | rfl | rfl | rfl | rfl | rfl | rfl | rfl | rfl | rfl | rfl <;>
       simp [bamHeader, Flat.readFull, Flat.read, bamMagic, leNat]
+
+/-- a header with a text and one reference entry ("c1\0", length 1000) is well-formed -/
+example : (⟨[3, 0, 0, 0], [0x40, 0x43, 0x4f], [1, 0, 0, 0], [⟨[3, 0, 0, 0], [0x63, 0x31, 0], [0xe8, 3, 0, 0]⟩]⟩ : Hdr).WellFormed
+    ⟨fun _ => true, fun _ => true⟩ := by
+  constructor <;> try decide
+  intro r hr
+  simp only [List.mem_cons, List.not_mem_nil, or_false] at hr
+  subst hr
+  constructor <;> decide
 
 end Hts.Props.C10
